@@ -15,16 +15,56 @@ import (
 
 // Names of scheduler entities that are part of the exported API or of the
 // Go standard library; everything unexported is found by role.
+// The two accessors of Stage.Status are known by their exported names; when a tree has unexported or renamed them
+// they are found by shape (bindStatusAccessors): the method of Stage that takes one int32 and returns nothing, and
+// the one that takes nothing and returns an int32.
+var (
+	fnReadStatus   = "(pkg/scheduler.Stage).ReadStatus"
+	fnUpdateStatus = "(pkg/scheduler.Stage).UpdateStatus"
+)
+
+func bindStatusAccessors(p *an.Prog) {
+	fnReadStatus, fnUpdateStatus = "(pkg/scheduler.Stage).ReadStatus", "(pkg/scheduler.Stage).UpdateStatus"
+	var readers, writers []*ssa.Function
+	hasRead, hasUpd := false, false
+	for _, fn := range p.Funcs {
+		if fn.Blocks == nil || fn.Parent() != nil || fn.Signature.Recv() == nil || !an.TypeIs(fn.Signature.Recv().Type(), "pkg/scheduler", "Stage") {
+			continue
+		}
+		switch an.Short(fn) {
+		case fnReadStatus:
+			hasRead = true
+		case fnUpdateStatus:
+			hasUpd = true
+		}
+		isInt32 := func(t types.Type) bool {
+			b, ok := t.Underlying().(*types.Basic)
+			return ok && b.Kind() == types.Int32
+		}
+		sig := fn.Signature
+		if sig.Params().Len() == 1 && sig.Results().Len() == 0 && isInt32(sig.Params().At(0).Type()) {
+			writers = append(writers, fn)
+		}
+		if sig.Params().Len() == 0 && sig.Results().Len() == 1 && isInt32(sig.Results().At(0).Type()) {
+			readers = append(readers, fn)
+		}
+	}
+	if !hasRead && len(readers) == 1 {
+		fnReadStatus = an.Short(readers[0])
+	}
+	if !hasUpd && len(writers) == 1 {
+		fnUpdateStatus = an.Short(writers[0])
+	}
+}
+
 const (
-	fnReadStatus   = "(*pkg/scheduler.Stage).ReadStatus"
-	fnUpdateStatus = "(*pkg/scheduler.Stage).UpdateStatus"
 	fnRunnerRun    = "(pkg/runner.Runner).Run"
 	fnRunnerCancel = "(pkg/runner.Runner).Cancel"
 	fnRunnerFinish = "(pkg/runner.Runner).Finish"
-	fnGraphTo      = "(*pkg/scheduler.ExecutionGraph).To"
-	fnGraphFrom    = "(*pkg/scheduler.ExecutionGraph).From"
-	fnGraphNode    = "(*pkg/scheduler.ExecutionGraph).Node"
-	fnGraphNodes   = "(*pkg/scheduler.ExecutionGraph).Nodes"
+	fnGraphTo      = "(pkg/scheduler.ExecutionGraph).To"
+	fnGraphFrom    = "(pkg/scheduler.ExecutionGraph).From"
+	fnGraphNode    = "(pkg/scheduler.ExecutionGraph).Node"
+	fnGraphNodes   = "(pkg/scheduler.ExecutionGraph).Nodes"
 	fnWgAdd        = "(*sync.WaitGroup).Add"
 	fnWgDone       = "(*sync.WaitGroup).Done"
 	fnWgWait       = "(*sync.WaitGroup).Wait"
